@@ -255,6 +255,19 @@ def case_krige(case):
         return r.done(skip="kriging system numerically singular (cond > 1e10)")
     res = run_pair(k, ref, T, "base", ext=ext_t)
     f0, v0 = res
+    # the object owns its conditions: arrays handed over by the caller may be reused by the caller afterwards
+    a_pos, a_val, a_ext = np.array(cp, dtype=np.double), np.array(z, dtype=np.double), np.array(ext_c, dtype=np.double)
+    ka, _ = build_pair(case, a_pos, a_val, cond_ext=a_ext, **base)
+    if ka is not None:
+        kwa = {"ext_drift": ext_t} if variant in EXTV else {}
+        fa0, va0 = ka(T, **kwa)
+        a_val += 3.7
+        a_pos *= 1.5
+        a_ext -= 0.4
+        fa1, va1 = ka(T, **kwa)
+        r.close("result unchanged when the caller reuses the arrays it passed as conditions (field)", fa1, fa0, rtol=0, atol=0, **extra)
+        r.close("result unchanged when the caller reuses the arrays it passed as conditions (variance)", va1, va0, rtol=0, atol=0, **extra)
+        r.close("object built from caller arrays == base object", fa0, f0, rtol=1e-12, atol=1e-13, **extra)
     # (b) linearity: data = unit vectors gives the weights; constants / drifts reproduced
     W, _, _ = ref.solve(T, ext_t)
     if base["proc"][0] == "none" or True:
